@@ -4,12 +4,12 @@
 # and archives it under /verif/seeded/<seed-id>/.
 ID=$1; WT=$2; MD=$3; PROP=$4; CAUGHT=$5
 D=/verif/seeded/$ID; mkdir -p $D
-cp $WT/$MD/patch.diff $D/; cp $WT/$MD/demo* $D/ 2>/dev/null; cp $WT/$MD/meta.json $D/agent_meta.json 2>/dev/null
+cp $WT/$MD/patch.diff $D/; cp $WT/$MD/demo* $WT/$MD/*.h $D/ 2>/dev/null; cp $WT/$MD/meta.json $D/agent_meta.json 2>/dev/null
 SV=/tmp/sv_$ID; rm -rf $SV; git -C /repo worktree add -q $SV HEAD
 cd $SV && git apply $D/patch.diff; A=$?
 cmake -G Ninja -B _build -DFIBER_RUN_TESTS_WITH_BUILD=OFF >/dev/null 2>&1 && cmake --build _build >/dev/null 2>&1; B=$?
 ctest --test-dir _build -j8 --timeout 300 -E semaphore > $D/ctest_with_patch.log 2>&1; T=$?
-mkdir -p MUTANT && cp $D/demo* MUTANT/ 2>/dev/null
+mkdir -p MUTANT && cp -r $WT/$MD/* MUTANT/ 2>/dev/null; rm -rf MUTANT/build MUTANT/_demo_build
 (cd MUTANT && timeout 300 bash demo.sh > $D/demo_with_patch.log 2>&1); DW=$?
 git checkout -q -- src include; cmake --build _build >/dev/null 2>&1
 (cd MUTANT && timeout 300 bash demo.sh > $D/demo_without_patch.log 2>&1); DO=$?
